@@ -113,6 +113,13 @@ def step (s : St) (line : String) : IO St := do
   | ["run"] =>
     IO.println (runStep s)
     return { s with prev := some (s.nh, s.cur), cur := [], step := s.step + 1, op := [] }
+  | ["histend", id, ld] =>
+    -- "every shared node is freed exactly once after the last handle goes away", on the real allocator:
+    -- once parser and handles of a history are gone the number of live allocations is what it was before
+    let d := (ld.splitOn "=").getLast!
+    let j := if d == "0" then "ok" else s!"FAIL:not-freed-after-last-handle:live_delta:{d}"
+    IO.println s!"{id}.end op=histend corr=na judge={j}"
+    return s
   | _ => return s
 
 def main : IO Unit := do
